@@ -172,6 +172,7 @@ type Scenario struct {
 	Script []Event // D-DFS: scripted operations
 	DevBound int   // D-DFS: maximal number of deviations
 	// Deviation menu for D-DFS is Enabled() under Budget.
+	TrackOut bool // maintain the running output hash (C19)
 	MaxDepth int // BFS depth cap (0 = none)
 	MaxStates int // state cap (0 = none)
 }
